@@ -390,6 +390,26 @@ pub fn c05_native<G: AffineRepr + 'static>(case: &C05Case, seed: u64, model: std
     let mut vt = new_verifier_transcript(shape);
     let res = build_verifier(shape, &shr, &mut vt).verify(&proof, &vpc, &bp);
     out.push((format!("deviating statement ({:?}) is rejected", case.dev), res.is_err()));
+    // the same proof presented in one batch for two statements that deviate by +delta and -delta
+    // (unabsorbed coefficient / constant: both replay the same challenges)
+    if matches!(case.dev, Dev::Coeff(_) | Dev::Const(_)) {
+        let forks: Vec<_> = [delta, -delta]
+            .iter()
+            .map(|d| {
+                let f = fork_for_verifier(shape, &shr);
+                f.borrow_mut().dev_delta = Some(*d);
+                f
+            })
+            .collect();
+        let mut ts: Vec<merlin::Transcript> = forks.iter().map(|_| new_verifier_transcript(shape)).collect();
+        let mut insts = vec![];
+        for (i, vt) in ts.iter_mut().enumerate() {
+            insts.push((build_verifier(shape, &forks[i], vt), &proof));
+        }
+        let mut brng = rand_chacha::ChaChaRng::seed_from_u64(seed ^ 0xba7c);
+        let ok = ark_bulletproofs::r1cs::batch_verify(&mut brng, insts, &vpc, &bp).is_ok();
+        out.push((format!("one proof batched against two statements deviating by +d and -d ({:?}) is rejected", case.dev), !ok));
+    }
     out
 }
 
@@ -417,6 +437,10 @@ pub fn c05_cases(thorough: bool) -> Vec<C05Case> {
         mk("changed_coefficient_committed_constraint", zero.clone(), Dev::Coeff(0), false),
         mk("changed_constant_committed_constraint", zero.clone(), Dev::Const(0), false),
         mk("changed_constant_with_gates", base.clone(), Dev::Const(1), false),
+        // the deviating coefficient / constant is drawn only by the FIRST of two closures (the second one draws
+        // nothing of that kind), so the deviation is addressed to that closure whatever else runs
+        mk("changed_coefficient_first_of_two_randomized_gadgets", Shape::new("two_closures", &[Commit, Commit], &[&[Chal, ConCommitted], &[Chal, ConConst]]), Dev::Coeff(2), false),
+        mk("changed_constant_first_of_two_randomized_gadgets_with_gates", Shape::new("two_closures_gates", &[Commit, AllocMul], &[&[Chal, Con], &[Chal, AllocMul]]), Dev::Const(0), false),
         mk("different_blinding_base", base.clone(), Dev::BlindBase, false),
         mk("different_blinding_base_zero_gates", zero.clone(), Dev::BlindBase, false),
         mk("different_value_base_one_gate", base.clone(), Dev::ValueBase, false),
